@@ -156,6 +156,7 @@ def judge_base(c, jr, ti):
 
 
 def variants(ci, c, jr, rnd, tier):
+    rnd = case_rnd(c)
     n = len(c['file']['rules'])
     if n < 2:
         return []
@@ -269,15 +270,16 @@ def main(tier):
     for (name, sig), fl in sorted(groups.items(), key=lambda kv: str(kv[0])):
         ci, ti, _, det, _ = min(fl, key=lambda x: len(json.dumps(cases[x[0]]['file'])))
         c = cases[ci]
-        small = c['file']
+        small, case_out = c['file'], c
         still = still_fails_factory(c['txns'][ti], name, run.seed)
         if still(small):
             small = shrink_rules(small, still)
-            _, f2, _ = evaluate([{'kind': 'rules', 'file': small, 'txns': [c['txns'][ti]]}], random.Random(run.seed), 'thorough')
+            case_out = {'kind': 'rules', 'file': small, 'txns': [c['txns'][ti]]}
+            _, f2, _ = evaluate([case_out], random.Random(run.seed), 'thorough')
             f2 = [x for x in f2 if x[2] == name]
             if f2:
                 det = f2[0][3]
-        obj = {'kind': 'counterexample', 'oracle': name, 'case': {'kind': 'rules', 'file': small, 'txns': [c['txns'][ti]]},
+        obj = {'kind': 'counterexample', 'oracle': name, 'case': case_out,
                'text': render_rules(small), 'detail': det, 'n_failing': len(fl), 'shrunk_from': len(c['file']['rules']),
                'seed': run.seed, 'obligation': 'c09_* on the implementation', 'broken': broken}
         if run.violation(name, obj, signature=sig):
@@ -343,8 +345,8 @@ def replay(path):
         main('quick')
         return 1
     c = obj['case']
-    _, fails, _ = evaluate([c], random.Random(obj.get('seed', 0)), 'thorough')
-    hit = [x for x in fails if x[2] == obj.get('oracle')] or fails
+    _, fails, _ = evaluate([c], random.Random(obj.get('seed', 0)), 'thorough' if len(c['txns']) == 1 else 'quick')
+    hit = [x for x in fails if x[2] == obj.get('oracle') and x[4] == obj.get('signature')]
     print(json.dumps({'text': render_rules(c['file']), 'txn': c['txns'][0], 'failing_oracles': [[x[2], x[3], x[4]] for x in hit]},
                      indent=1, default=str))
     if hit:
